@@ -27,6 +27,11 @@ type Scenario struct {
 	Body func(s *vsched.Sched) (check func() []string, teardown func())
 	// Variants: each execution tree is explored once per variant (e.g. map order).
 	MapDesc bool
+	// BothMapOrders: explore the scenario with ascending and with descending map iteration.
+	BothMapOrders bool
+	// FreeBound bounds the number of non-default choices taken where the running
+	// thread was not enabled (free context switches); <0 = unbounded.
+	FreeBound int
 	// KnownNoise lists leftover-thread patterns that are expected after teardown.
 	AllowLeftover func(name string) bool
 }
@@ -48,6 +53,9 @@ func (c *ctr) Read(p []byte) (int, error) {
 type item struct {
 	prefix []int
 	cost   int
+	free   int
+	depth  int  // number of deviations from the default schedule
+	shared bool // executed by every shard (levels above the split depth)
 	expect [][]string // enabled labels of the parent's steps before the deviation
 }
 
@@ -103,9 +111,9 @@ func Explore(t *testing.T, sc *Scenario, r *rep.Report) {
 	bound := sc.Bound
 	outcomes := map[string]int64{}
 	var schedules, maxSteps int64
-	stack := []item{{}}
-	rootDone := false
-	childIdx := 0
+	stack := []item{{shared: true}}
+	splitIdx := 0
+	const splitDepth = 2
 	capped := false
 	for len(stack) > 0 {
 		if r.OverBudget("sched " + sc.Name) {
@@ -117,9 +125,7 @@ func Explore(t *testing.T, sc *Scenario, r *rep.Report) {
 		stack = stack[:len(stack)-1]
 		rep.Current(map[string]any{"scenario": sc.Name, "choices": it.prefix, "sig_hint": sc.Name})
 		res, bp := runOnce(t, sc, it.prefix, false)
-		isRoot := !rootDone
-		rootDone = true
-		counted := !isRoot || shard == 0
+		counted := !it.shared || shard == 0
 		if counted {
 			schedules++
 		}
@@ -185,23 +191,30 @@ func Explore(t *testing.T, sc *Scenario, r *rep.Report) {
 			}
 		}
 		// children
-		for i := len(res.Steps) - 1; i >= len(it.prefix); i-- {
+		for i := len(res.Steps) - 1; i >= len(it.prefix) && i >= res.BranchFrom; i-- {
 			st := res.Steps[i]
 			if len(st.Enabled) < 2 {
 				continue
 			}
-			cost := it.cost
+			cost, free := it.cost, it.free
 			if st.RunningEnabled {
 				cost++
+			} else {
+				free++
 			}
-			if cost > bound {
+			if cost > bound || (sc.FreeBound >= 0 && free > sc.FreeBound) {
 				continue
 			}
 			for alt := len(st.Enabled) - 1; alt >= 1; alt-- {
-				if isRoot {
-					childIdx++
-					if childIdx%nshards != shard {
-						continue
+				childShared := false
+				if it.shared {
+					if it.depth+1 < splitDepth {
+						childShared = true
+					} else {
+						splitIdx++
+						if splitIdx%nshards != shard {
+							continue
+						}
 					}
 				}
 				p := append(append([]int{}, choices[:i]...), alt)
@@ -209,7 +222,7 @@ func Explore(t *testing.T, sc *Scenario, r *rep.Report) {
 				for k := 0; k <= i; k++ {
 					exp[k] = res.Steps[k].Enabled
 				}
-				stack = append(stack, item{prefix: p, cost: cost, expect: exp})
+				stack = append(stack, item{prefix: p, cost: cost, free: free, expect: exp, depth: it.depth + 1, shared: childShared})
 			}
 		}
 	}
@@ -225,8 +238,16 @@ func Explore(t *testing.T, sc *Scenario, r *rep.Report) {
 		}
 		r.State(sc.Name + " => " + k)
 	}
-	r.Note("scenario %s (mapdesc=%v): %d schedules in shard %d/%d, preemption bound %d, max steps %d, %d distinct outcomes",
-		sc.Name, sc.MapDesc, schedules, shard, nshards, bound, maxSteps, len(outcomes))
+	key := fmt.Sprintf("schedules[%s,mapdesc=%v]", sc.Name, sc.MapDesc)
+	if x, ok := r.Extra[key].(int64); ok {
+		r.Extra[key] = x + schedules
+	} else {
+		r.Extra[key] = schedules
+	}
+	if shard == 0 {
+		r.Note("scenario %s (mapdesc=%v): preemption bound %d, free-switch bound %d, max steps %d; schedule counts per scenario are in coverage[\"schedules[...]\"]",
+			sc.Name, sc.MapDesc, bound, sc.FreeBound, maxSteps)
+	}
 	if shard == 0 {
 		tr, _ := runOnceTrace(t, sc, nil)
 		if len(tr) > 40 {
